@@ -59,6 +59,10 @@ def make_inputs(cols: dict, kinds=("pandas", "polars", "polars-lazy", "pyarrow",
             parts.insert(1, t.slice(0, 0))           # an empty chunk
             t = pa.concat_tables(parts)
         out["pyarrow"] = t
+    if "pyarrow-chunked" in kinds:
+        t = pa.table(d)
+        step = max(1, t.num_rows // 7)
+        out["pyarrow-chunked"] = pa.concat_tables([t.slice(i, step) for i in range(0, t.num_rows, step)])
     if "ibis-sqlite" in kinds:
         out["ibis-sqlite"] = sqlite_table(d)
     return out
